@@ -26,8 +26,8 @@ type Engine struct{ tier string }
 func New() sim.Engine { return &Engine{} }
 
 func (e *Engine) Setup(tier string) error { e.tier = tier; return nil }
-func (e *Engine) Strides() []int           { return nil }
-func (e *Engine) ShrinkBudget() int        { return 600 }
+func (e *Engine) Strides() []int          { return nil }
+func (e *Engine) ShrinkBudget() int       { return 600 }
 
 // ---- simulated stdin: blocks (durably, on a channel) when empty -------------
 
